@@ -987,3 +987,12 @@ Lemma wrap_run_ok :
   e_del (s_b s) = [100; 101] /\ e_del (s_a s) = [200] /\ e_acked (s_a s) = [0%nat; 1%nat] /\
   c_ns (e_ch (s_a s)) = 1 /\ c_nr (e_ch (s_b s)) = 1 /\ c_nr (e_ch (s_a s)) = 32768.
 Proof. vm_compute. splits; reflexivity. Qed.
+
+(* every real (non-ZLB) message that reaches the channel arms the ZLB timer, whether it is accepted,
+   a duplicate or from the future, under both dispatch rules *)
+Lemma data_arms_ack z f c p b now c' o h :
+  k_body p = Some b -> dispatch z f c p now = (c', o, h) -> c_zlb c' = Some (now + f_zlb f).
+Proof.
+  intros Hb H. unfold dispatch in H. rewrite Hb in H. apply recv_spec in H.
+  destruct H as (_ & _ & _ & _ & _ & _ & _ & _ & _ & Z1). exact Z1.
+Qed.
